@@ -797,3 +797,48 @@ Theorem C01_semcoll_completes : forall P creply s0 T (good : Sem.gs -> Prop), Se
   forall n s, SemColl.run_c P creply n s0 s -> exists s', SemColl.run_c P creply (T - n) s s' /\ Sem.final s'.
 Proof. exact SemColl.es_completes. Qed.
 Print Assumptions C01_semcoll_completes.
+
+(* ---- NBX in a semantics with polls (MPI/SemPoll.v): a wildcard receive on a polling tag is MPI_Iprobe (+ MPI_Recv on success) and reports
+   exactly whether a message is available (reply with negative source otherwise); a send on a tag of `stags` is synchronous: it is
+   complete when its message has been taken out of the channel; Coll 6 = MPI_Testall over the rank's synchronous sends, Coll 7 posts
+   MPI_Ibarrier, Coll 8 = MPI_Test of the barrier (complete when every rank 0 .. P-1 has posted it).  C01/NbxSched.v: the system
+   nbx_sys P R hp pay sorted fuel (rank r < P runs nbx_core fuel (R r) ep sorted ..; fuel = the model's bound on the loop iterations) *)
+From ScV Require MPI.SemPoll C01.NbxSched.
+
+(* the executable scheduler of SemPoll.v is sound for the step relation (complete: SemPoll.exec_step_p_complete) *)
+Theorem C01_sempoll_exec_sound : forall P polltag stags (l : list SemPoll.pchoice) s s',
+  SemPoll.exec_p P polltag stags l s = Some s' -> SemPoll.run_p P polltag stags (length l) s s'.
+Proof. exact SemPoll.exec_p_sound. Qed.
+Print Assumptions C01_sempoll_exec_sound.
+
+(* NBX, EVERY SCHEDULE - PARTIAL.  FULL STATEMENT WANTED: for every P >= 1, every family of ascending receiver lists, sorted or not, every
+   fuel: in EVERY run of SemPoll.v from nbx_sys (a) every final state has on every rank r the result `result o []`, o a permutation of the
+   transposed list (equal to it if sorted), every channel empty (no unreceived message, no pending synchronous send) and every barrier
+   posted; (b) no rank is ever blocked; (c) NO ENDLESS POLLING: from every reachable state a final state is reachable (unless the model's
+   loop bound is hit), and every fair run terminates.
+   PROVED, for every schedule and unbounded: (a), (b) and the first half of (c).  (a) rests on the invariant NbxSched.NInv, which holds
+   in every reachable state (NbxSched.nbx_safety): a rank posts the barrier only after all its synchronous sends were matched, and
+   returns only after all ranks posted the barrier, hence after it has itself received every message addressed to it - the argument
+   behind the round abstraction of C01_nbx_round_semantics, now derived from a global semantics.  (b): every rank of the communicator
+   has returned, or stands at the model's fuel mark, or can step.  (c), first half: from EVERY reachable state some continuation of the
+   run reaches a final state or a state in which a rank stands at the model's fuel mark (a potential on the ghost states decreases
+   along a suitably chosen enabled step: NbxSched.nbx_move).  MISSING: that fuel >= (steps so far + potential) excludes the fuel mark
+   on that continuation, and termination of every FAIR run - see docs/C01_sched2.md section 5. *)
+Theorem C01_nbx_every_schedule_partial : forall P (R : Z -> list Z) (sorted : bool) (fuel : nat),
+  (forall f, 0 <= f < P -> ssorted (fun x => x) (R f) /\ forall t, In t (R f) -> 0 <= t < P) ->
+  forall n s, SemPoll.run_p P NbxSched.nbx_poll NbxSched.nbx_stags n (NbxSched.nbx_sys P R false (fun _ _ => []) sorted fuel) s ->
+    (SemPoll.pfinal s ->
+       (forall r, 0 <= r < P -> exists o, Permutation o (transpose P R r) /\ (sorted = true -> o = transpose P R r) /\
+                                         SemPoll.ppr s r = Ret (result o [])) /\
+       (forall a b t, SemPoll.pch s a b t = []) /\ (forall r, 0 <= r < P -> SemPoll.pbar s r = true)) /\
+    (forall r, 0 <= r < P -> (exists o, SemPoll.ppr s r = Ret o) \/ NbxSched.at_fuel_mark s r \/
+                             exists s', SemPoll.step_p P NbxSched.nbx_poll NbxSched.nbx_stags s r s') /\
+    (exists m s', SemPoll.run_p P NbxSched.nbx_poll NbxSched.nbx_stags m s s' /\
+                  (SemPoll.pfinal s' \/ exists r, 0 <= r < P /\ NbxSched.at_fuel_mark s' r)).
+Proof.
+  intros P R sorted fuel HR n s Hr. split; [|split].
+  - exact (NbxSched.nbx_final P R false (fun _ _ => []) sorted fuel HR n s Hr).
+  - exact (NbxSched.nbx_never_blocked P R false (fun _ _ => []) sorted fuel HR n s Hr).
+  - exact (NbxSched.nbx_no_endless_polling P R false (fun _ _ => []) sorted fuel HR n s Hr).
+Qed.
+Print Assumptions C01_nbx_every_schedule_partial.
